@@ -123,6 +123,13 @@ def _redundant_change_points(ctx, lif, case, p, times, amps, duration, base, sig
     if t_mid > times[j] and (j + 1 >= len(times) or t_mid < times[j + 1]):
         variants.append(("repeat-amplitude", list(times[:j + 1]) + [t_mid] + list(times[j + 1:]),
                          list(amps[:j + 1]) + [amps[j]] + list(amps[j + 1:])))
+    if base:
+        # ... and a redundant change point placed exactly on one of the spike times the loop itself computed
+        ts = rng.choice(base[:8])
+        j = sum(1 for t in times if t <= ts) - 1
+        if j >= 0 and ts > times[j]:
+            variants.append(("repeat-amplitude-on-spike", list(times[:j + 1]) + [ts] + list(times[j + 1:]),
+                             list(amps[:j + 1]) + [amps[j]] + list(amps[j + 1:])))
     for name, t2, a2 in variants:
         n = lif.ExactLIFNeuron(lif.LIFParams(p.tau, p.r, p.v_leak, p.v_threshold))
         rec = lif.run_event_based_simulation(n, lif.StepCurrent(t2, a2), 0.013, duration)
@@ -178,6 +185,19 @@ def event_loop_correspondence(ctx, lif, rng):
         rdt = None if rng.random() < 0.15 else dt
         if rdt is None:
             fam.append("no_recording")
+        if rng.random() < 0.35:
+            # an input change placed *exactly* on a predicted spike time (or a record placed on it): run once, take a
+            # spike time as the loop computed it, and put a change point with another amplitude there
+            n0 = lif.ExactLIFNeuron(lif.LIFParams(p.tau, p.r, p.v_leak, p.v_threshold)); n0.state.v = v0
+            pre = lif.run_event_based_simulation(n0, lif.StepCurrent(list(times), list(amps)), math.inf, max(duration, 0.05))
+            if pre.spikes:
+                ts = rng.choice(pre.spikes[:6])
+                j = sum(1 for t in times if t <= ts)
+                times = list(times[:j]) + [ts] + list(times[j:])
+                amps = list(amps[:j]) + [rng.choice([0.0, -1.0, rng.uniform(-1, 4)])] + list(amps[j:])
+                if rng.random() < 0.3:
+                    duration = ts; fam.append("duration_on_spike")
+                fam.append("input_on_predicted_spike")
         n = lif.ExactLIFNeuron(lif.LIFParams(p.tau, p.r, p.v_leak, p.v_threshold))
         n.state.v = v0
         rec = lif.run_event_based_simulation(n, lif.StepCurrent(list(times), list(amps)), math.inf if rdt is None else rdt,
@@ -434,7 +454,16 @@ def run(ctx):
         case = {"op": "cuba", "n": nn, "dt": dt, "seed": "derived"}
         ctx.case(case); ctx.count("cuba_runs")
         kept = []
-        for step in range(rng.randrange(1, 30)):
+        n_steps = rng.randrange(1, 30)
+        change_at = rng.randrange(0, n_steps) if rng.random() < 0.35 else None
+        for step in range(n_steps):
+            if step == change_at:
+                # the step size (a public attribute) or a time constant of the node is changed between two steps: every
+                # step is the Euler step for the values in force when it is taken
+                if rng.random() < 0.5:
+                    dt = dt * rng.choice([0.5, 2.0, 0.1]); m.dt = dt; ctx.count("cuba_dt_changed_mid_run")
+                else:
+                    node.tau_mem = node.tau_mem * 2.0; ctx.count("cuba_tau_changed_mid_run")
             x = (g.random(nn) < 0.4).astype(float) * g.uniform(0.5, 5)
             z, vo, Io = m.forward(x)
             kept.append((step, z, vo, Io, np.array(z, copy=True), np.array(vo, copy=True), np.array(Io, copy=True)))
